@@ -42,7 +42,7 @@ GEN_Cases == LET F == Full
 SetToSeq(S) == [i \in 1..Cardinality(S) |-> CHOOSE x \in S : Cardinality({y \in S : y < x}) = i - 1]
 
 Derived ==
-  [m |-> Unpadded(case), rows |-> SetToSeq(matrows), ridged |-> SetToSeq(ident),
+  [m |-> Unpadded(case), rows |-> SetToSeq(matrows), identRows |-> SetToSeq(ident),
    allpad |-> AllPad(case),
    branch |-> IF case.method = "eigh" THEN "eigh" ELSE IF case.n = 1 THEN "size1" ELSE "loop",
    floorExp |-> FloorExp(case), maxTries |-> MaxTries, escalation |-> Escalation,
